@@ -29,7 +29,7 @@ fn hstr(s: &[u32]) -> String {
 		for (k, b) in ch.iter().enumerate() { v |= (*b as u64) << (8 * k); }
 		((v << 3) | ch.len() as u64).to_string()
 	}).collect();
-	format!("(u [{}])", ints.join(";"))
+	format!("(u [{}]%uint63)", ints.join(";"))
 }
 fn h_names(n: &NamesRow) -> String { glist(n.iter().map(|o| gopt(o.as_ref().map(|s| hstr(s))))) }
 fn h_doc(d: &Option<S>) -> String { gopt(d.as_ref().map(|s| hstr(s))) }
